@@ -5,7 +5,7 @@ _CTX = ("req", "rep", "sub", "surveyor", "respondent")
 
 
 def _floors(scale):
-    f = {"probes": int(14000 * scale), "parked_cases": 900, "@classes": 2500,
+    f = {"probes": int(14000 * scale), "parked_cases": 1000, "@classes": 2500,
          "eagain_judged": int(4000 * scale),
          # gap 1: API forms
          "probes_form_buf": int(2000 * scale), "probes_form_aio": int(3000 * scale),
@@ -20,7 +20,8 @@ def _floors(scale):
          "@class:*/after=*is-parked*": 30,
          # gap 3: enumerated disruptions
          "unsubscribes_with_pending": 4, "new_request_with_reply_pending": 2,
-         "resizes_of_full_recvbuf": 100, "resizes_of_full_sendbuf": 200,
+         # (counted only when the queue really was full: the fill ended with a refusal / more had arrived than fits)
+         "resizes_of_full_recvbuf": 60, "resizes_of_full_sendbuf": 90,
          "peer_fill_refused": 100, "send_fill_refused": 80,
          "@class:sub/*/after=unsubscribe*": 6,
          # reply-path back pressure on REP (raw REQ peer that never reads replies): probes made while the previous reply was still in flight
@@ -29,6 +30,16 @@ def _floors(scale):
          "@class:reply-busy/inproc/ctx/*": 3, "@class:reply-busy/tcp/ctx/*": 3,
          # gap 4: descriptors created lazily for a pollable that is already raised
          "lazy_fd_first_probes": 600, "lazy_fd_first_probe_raised": 400, "@class:lazy:*": 40,
+         # second audit, 1: pair1 polyamorous (a cooked protocol of its own), histories and parked scenarios
+         "probes_pair1poly": int(350 * scale), "@class:pair1poly/inproc/*": 30, "@class:pair1poly/tcp/*": 30,
+         # second audit, 2: the probed socket dials (its pipes come from dialers and from its own redial); ipc
+         "cases_role_dial": int(60 * scale), "@class:*/role=dial/*": 800, "@class:*/after=local-pipe-close": 60,
+         "@class:*/role=dial/*/after=local-pipe-close": 20, "@class:*/ipc/*": 600,
+         # second audit, 3: the kernel's send path full (large messages over tcp, peers not reading), then a peer reads / SENDBUF shrinks
+         "send_fill_refused_tcp": 40, "big_send_cases_kernel_queue_stuck": 30, "@class:tcp-path-full/*/refused": 12,
+         "@class:*/tcp/send*/fd1/rv=0/after=tcp-path-full+*": 20, "@class:*/tcp/send*/fd0/rv=8/after=tcp-path-full+*": 6,
+         # second audit, 5: clause (b) under back pressure is judged on a descriptor confirmed unreadable at two quiescent points
+         "unreadable_confirmed_under_backpressure": 60,
          }
     for n in _NAMES:
         f["probes_" + n] = int(350 * scale)
@@ -41,12 +52,12 @@ def _floors(scale):
 
 SPEC = dict(
     level="exploration",
-    level_text="Runtime differential monitor at quiescent points: for every protocol (cooked and raw) over inproc and tcp, random histories (peer send / peer fill until refused / peer receive / buffer resize / peer loss and return / local pipe close / subscribe-unsubscribe on socket and context / a blocking aio posted on the socket or a context and then cancelled, timed out, or left parked while probes run and a further event happens / a survey that expires) and enumerated 'parked' scenarios (messages pending from three peers, then one disruption for every target: pipe close, peer close, resize, unsubscribe with messages queued, resize of a FULL receive or send queue 4->1, 1->0, 0->4, the same with a sender waiting, a peer taking one or two messages while a sender waits, a new request/survey with the reply unread, survey expiry with responses unread; and, for REP, a raw REQ peer that sends requests and never reads replies until the previous reply is still in flight on the pipe when the next parked request is received and answered, socket and context form, where a readable send descriptor is confirmed at two quiescent points 200 ms apart BEFORE the attempt because a refused REP send consumes the reply state) are driven. After every step, once the library is quiescent (guarded in-flight counter of tasks, pollers and reaps is zero and stays zero), the recv and send poll descriptors are sampled and non-blocking receives and sends are issued in every API form: nng_recvmsg/nng_sendmsg, the buffer forms nng_recv/nng_send, zero-timeout aios, and nng_ctx_recvmsg/nng_ctx_sendmsg and zero-timeout aios on an extra context (req, rep, sub, surveyor, respondent), in a seeded order, so that context activity is followed by socket probes that judge the descriptors. In half of the histories (two thirds of the parked scenarios) the descriptors are requested only after traffic, so the library creates them for a pollable that is already raised. Violations: descriptor readable but NNG_EAGAIN (persistent), success while the descriptor was not readable, NNG_EAGAIN although the same call with a 30 ms timeout then succeeds with no other stimulus (library idle for 10 ms and a second NONBLOCK attempt still refused), a flagged call failing with NNG_ETIMEDOUT, a NONBLOCK call during which the calling thread sleeps > 1.5 s (protocol timers are >= 2 s) or > 400 ms twice in a row, and ownership of a message after a failed send (message still attached to a failed zero-timeout aio; ASan / allocator balance for the other forms).",
-    level_note="Quiescence is established by the hook counters plus a settle re-check (3 ms on tcp); kernel loopback latency beyond that would show as a transient and is filtered by the persistence re-check. 'Blocks' is judged on the time the calling thread slept inside the call (wall minus on-CPU minus runnable time from /proc/thread-self/schedstat), not on wall time. NNG_FLAG_ALLOC does not exist in this version of the API. Send-side back-pressure of the kernel (large messages over tcp to a peer that does not read) is not driven: delayed ACKs are a stimulus the harness cannot see.",
+    level_text="Runtime differential monitor at quiescent points: for every protocol (cooked and raw, and pair1 polyamorous with up to three pair1 peers) over inproc, ipc and tcp, with the probed socket listening or - every other history - dialing its peers (so that its pipes come from dialers and, after a local pipe close, from its own redial), random histories (peer send / peer fill until refused / peer receive / buffer resize / peer loss and return / local pipe close / subscribe-unsubscribe on socket and context / a blocking aio posted on the socket or a context and then cancelled, timed out, or left parked while probes run and a further event happens / a survey that expires) and enumerated 'parked' scenarios (the tcp path to three peers that do not read filled with 256 kB messages by judged non-blocking sends until refused - kernel buffers limited to 32 kB per connection - and then one peer taking one message, every peer taking four, or SENDBUF shrinking, for every protocol that can send unasked: the completion that must raise the send descriptor arrives from the transport's partial-write path long after the refusal; messages pending from three peers, then one disruption for every target: pipe close, peer close, resize, unsubscribe with messages queued, resize of a FULL receive or send queue 4->1, 1->0, 0->4, the same with a sender waiting, a peer taking one or two messages while a sender waits, a new request/survey with the reply unread, survey expiry with responses unread; and, for REP, a raw REQ peer that sends requests and never reads replies until the previous reply is still in flight on the pipe when the next parked request is received and answered, socket and context form, where a readable send descriptor is confirmed at two quiescent points 200 ms apart BEFORE the attempt because a refused REP send consumes the reply state) are driven. After every step, once the library is quiescent (guarded in-flight counter of tasks, pollers and reaps is zero and stays zero), the recv and send poll descriptors are sampled and non-blocking receives and sends are issued in every API form: nng_recvmsg/nng_sendmsg, the buffer forms nng_recv/nng_send, zero-timeout aios, and nng_ctx_recvmsg/nng_ctx_sendmsg and zero-timeout aios on an extra context (req, rep, sub, surveyor, respondent), in a seeded order, so that context activity is followed by socket probes that judge the descriptors. In half of the histories (two thirds of the parked scenarios) the descriptors are requested only after traffic, so the library creates them for a pollable that is already raised. Violations: descriptor readable but NNG_EAGAIN (persistent), success while the descriptor was not readable (judged only if no library event happened between the quiescent point and the call and no timer fired during it; where a TCP out-queue is full behind a closed window, only if the descriptor was unreadable at two quiescent points 200 ms apart with every kernel queue length unchanged), NNG_EAGAIN although the same call with a 30 ms timeout then succeeds with no other stimulus (library idle for 10 ms and a second NONBLOCK attempt still refused), a flagged call failing with NNG_ETIMEDOUT, a NONBLOCK call during which the calling thread sleeps > 1.5 s (protocol timers are >= 2 s) or > 400 ms twice in a row, and ownership of a message after a failed send (message still attached to a failed zero-timeout aio; ASan / allocator balance for the other forms).",
+    level_note="Quiescence is established in this order: hook counters zero and unchanged over a settle gap, no TCP connection of the process (both ends are ours) with bytes sent but not acknowledged (SIOCOUTQ - SIOCOUTQNSD; delayed ACKs are flushed with TCP_QUICKACK, reset connections ignored), then every other thread asleep, and no library event in between. The timed retry of clause (c) carries its 30 ms in an aio while the socket's own timeouts stay at 5 s, so a NONBLOCK call that waits for the socket timeout is seen by clause (d). 'Blocks' is judged on the time the calling thread slept inside the call (wall minus on-CPU minus runnable time from /proc/thread-self/schedstat), not on wall time. NNG_FLAG_ALLOC does not exist in this version of the API. Under kernel back pressure a window update (a pure ACK) on its way is not visible in any queue length: there the verdicts rest on the 200 ms persistence of descriptor and queue lengths. The one known finding makes clause (c) blind for every send of a cooked RESPONDENT (its NONBLOCK send is refused in every state, so no state-specific sub-key would be silent on the unchanged tree).",
     technique="runtime differential oracle (NONBLOCK vs short-timeout vs poll fd) at hooked quiescent points",
-    rule="a case is (protocol, cooked/raw, transport, seeded history of 6-14 steps) or an enumerated (protocol, cooked/raw, transport, disruption, target); up to four probes (socket recv/send, context recv/send) after every step; a class is (protocol, transport, op, descriptor state, result, preceding step) actually observed, plus (protocol, op, API form, result), (lazily created descriptor, state, result) and (parked aio kind, outcome)",
+    rule="a case is (protocol, cooked/raw, transport, role, seeded history of 6-14 steps) or an enumerated (protocol, cooked/raw, transport, disruption, target); up to four probes (socket recv/send, context recv/send) after every step; a class is (protocol, transport, op, descriptor state, result, preceding step) actually observed, plus (protocol, op, API form, result), (lazily created descriptor, state, result) and (parked aio kind, outcome)",
     assumptions=["probing changes the state (a successful probe sends/receives a message; a refused REQ send or timed-out REQ receive resets the request): that is part of the history"],
-    quick=dict(runs=[R("c15_nonblock", "asan", 8, 3, "", 600), R("c15_nonblock", "asan", 8, 0, "parked", 600)],
+    quick=dict(runs=[R("c15_nonblock", "asan", 8, 3, "", 600), R("c15_nonblock", "asan", 8, 0, "parked", 600), R("c15_nonblock", "asan", 8, 0, "parked2", 600)],
                floor=_floors(1.0), eval_key="probes"),
     thorough=dict(runs=[R("c15_nonblock", "asan", 16, 24, "", 3000)],
                   floor=_floors(2.5), eval_key="probes"),
